@@ -58,10 +58,16 @@ impl TypeScorerBoundaryTag {
             let weight = PositionalWeightWithTag::with_boundary(-i16::from(window_size), d.weights);
             merger.add(d.ngram, weight);
         }
-        let mut tag_weight = vec![
-            vec![SerializableHashMap::default(); usize::from(window_size) + 1];
-            tag_ngram_model.len()
-        ];
+        // Tag n-grams can reach further than the window, so the rows are sized from the data.
+        let n_positions = tag_ngram_model
+            .iter()
+            .flat_map(|tag_model| &tag_model.0)
+            .flat_map(|d| &d.weights)
+            .map(|w| usize::from(w.rel_position))
+            .fold(usize::from(window_size), usize::max)
+            + 1;
+        let mut tag_weight =
+            vec![vec![SerializableHashMap::default(); n_positions]; tag_ngram_model.len()];
         for (i, tag_model) in tag_ngram_model.into_iter().enumerate() {
             for d in tag_model.0 {
                 for w in d.weights {
